@@ -68,7 +68,9 @@ def _arg_for(B, name, default_node, idx):
             return B.real(f"arg_{name}")
         if isinstance(d, str):
             return d                      # option strings are usually validated against a fixed set
-    return B.opaque(f"arg_{name}")
+    o = B.opaque(f"arg_{name}")
+    o.subscriptable = True    # `arg[0]` is again an unknown value (see Interp.getitem); its truth value is symbolic
+    return o
 
 
 def _ctor_inputs(path, clsname):
